@@ -202,13 +202,13 @@ def _construct_related_types(etype: tp.ParameterizedType, types, get_subtypes,
                                                types, get_subtypes,
                                                type_var_map,
                                                ignore_variance)
+            # Type argument should not be primitives.
+            t_args = [t for t in t_args or [] if not t.is_primitive()]
             if not t_args:
                 # We were not able to construct a subtype of the given
                 # parameterized type. Therefore, we give back the given
                 # type.
                 return etype
-            # Type argument should not be primitives.
-            t_args = [t for t in t_args if not t.is_primitive()]
             t_arg = utils.random.choice(t_args)
             type_var_map[t_param] = t_arg
     return etype.t_constructor.new(list(type_var_map.values()))
